@@ -34,4 +34,26 @@ def litOp (args : List String) : String :=
       | .notALiteral => "bad-op lit-not-a-literal"
   | _ => "bad-op lit"
 
+/-- `findapi <kind> <V> <n> <V>*n => ok <V> | err | PANIC`: the public `liquid_core::model::find` called
+directly on a value with a path of scalars (also with a first key that does not exist) -/
+def findApiOp (args : List String) : String :=
+  let p : P (String × V × List V) := do
+    let kind ← tok; let v ← pV; let n ← pNat
+    let path ← (List.range n).mapM fun _ => pV
+    let arrow ← tok
+    if arrow != "=>" then failure
+    pure (kind, v, path)
+  match run p args with
+  | some ((kind, v, path), obs) =>
+    if obs == ["PANIC", "-"] || obs == ["PANIC"] then "specfail " ++ kind ++ " law=find-never-panics" else
+    let scs := path.filterMap fun x => match x with | .sc s => some s | _ => none
+    if scs.length != path.length then "bad-op findapi path" else
+    let m : List String := match find v scs with
+      | .ok r => "ok" :: encVSorted r
+      | .err => ["err"]
+      | .panic _ => ["PANIC"]
+      | _ => ["?"]
+    if m == obs then "ok " ++ kind else "diff " ++ kind ++ " model=" ++ " ".intercalate m ++ " impl=" ++ " ".intercalate obs
+  | none => "bad-op findapi"
+
 end Liquid.Drv
